@@ -4,11 +4,13 @@
    Vocabulary (Model/ConnClose.v): a program is the read loop with a [script] (what HandlePacket does with
    each incoming packet: return, or panic with an error / string / runtime.Error / other value) plus any
    list [gs] of goroutines (Close or CloseUnknown, CloseWith, WritePacket - which closes the connection
-   when its flush fails -, the peer closing its end); the read loop ends with the blocked read failing.
+   when its flush fails -, the peer closing its end, the PARENT context given to NewMinecraftConn being
+   cancelled); the read loop ends with the blocked read failing.
    [run ... sched cinit] executes ANY schedule.  impl_cfg = the code as it is (closeOnce and recover).
      n_disc evs     number of SessionHandler.Disconnected() calls
      n_first evs    number of closeKnown calls that ran the teardown (did not answer ErrClosedConn)
-     has_disc pre   a Disconnected() call occurred in the prefix pre
+     has_closed pre a Disconnected() call or a cancellation of the parent context occurred in the prefix pre
+                    (that is when netmc.Closed(c) answers true)
      handled evs    numbers of the incoming packets for which HandlePacket was entered, in order *)
 From Coq Require Import List Bool Arith.
 From Verif Require Import Base.Conc Model.ConnClose Proofs.C44.
@@ -16,8 +18,10 @@ Import ListNotations.
 
 (* "However many times and from however many goroutines a connection is closed (explicitly, by a write
    error, or by its read loop ending), its session teardown runs exactly once": never more than once;
-   exactly once iff the connection is closed; exactly one closeKnown call is the one that ran it; and as
-   soon as any Close / CloseWith / internal close has returned it has run. *)
+   exactly once iff the teardown's own cancelCtx ran; exactly one closeKnown call is the one that ran it;
+   and as soon as any closeKnown call (Close, CloseUnknown, closeOnWriteErr, the read loop's deferred
+   close, CloseWith's deferred Close) has returned it has run - also when the parent context was
+   cancelled first, which makes Closed(c) true without any teardown. *)
 Theorem C44_teardown_exactly_once : forall script gs sched,
   let r := run (program impl_cfg script gs) sched cinit in
   let s := final_state r in
@@ -30,13 +34,13 @@ Proof. exact teardown_exactly_once. Qed.
 Print Assumptions C44_teardown_exactly_once.
 
 (* "later writes report the connection as closed": wherever a write starts in the trace, its Closed(c)
-   check sees "closed" exactly when the teardown happened before it, and then the very next event is that
+   check sees "closed" exactly when the teardown (or a parent-context cancel) happened before it, and then the very next event is that
    write returning ErrClosedConn (nothing is sent, nothing else happens in between) *)
 Theorem C44_writes_after_close_fail : forall script gs sched,
   let r := run (program impl_cfg script gs) sched cinit in
   let evs := events r in
   forall pre t b post, evs = pre ++ EWStart t b :: post ->
-    b = has_disc pre /\ (b = true -> exists post', post = EWRes t WClosed :: post').
+    b = has_closed pre /\ (b = true -> exists post', post = EWRes t WClosed :: post').
 Proof. exact writes_after_close_fail. Qed.
 Print Assumptions C44_writes_after_close_fail.
 
@@ -57,13 +61,13 @@ Print Assumptions C44_panic_contained.
    recover" show the same on the real code) *)
 Theorem C44_without_once_teardown_runs_twice :
   exists script gs sched,
-    n_disc (events (run (program (mkCfg false true) script gs) sched cinit)) = 2.
+    n_disc (events (run (program (mkCfg false true false) script gs) sched cinit)) = 2.
 Proof. exact without_once_teardown_runs_twice. Qed.
 Print Assumptions C44_without_once_teardown_runs_twice.
 
 Theorem C44_without_recover_the_process_dies :
   exists script gs sched,
-    let r := run (program (mkCfg true false) script gs) sched cinit in
+    let r := run (program (mkCfg true false false) script gs) sched cinit in
     died (events r) = true /\ c_died (final_state r) = true
     /\ handled (events r) = [0; 1]
     /\ n_disc (events r) = 0.
@@ -78,6 +82,15 @@ Example C44_nonvacuous_demo :
   /\ handled (events r) = [0; 1; 2; 3; 4; 5] /\ recovered (events r) = [0; 2; 3; 4]
   /\ n_disc (events r) = 1 /\ n_first (events r) = 1
   /\ skipn 10 (events r) =
-     [EDisc; ECloseRet 1 CFirst; ECloseRet 2 CAlready; ECloseRet 3 CAlready;
+     [EDisc; ECloseRet 1 CFirst; ECwSkip 2; ECloseRet 3 CAlready;
       EWStart 5 true; EWRes 5 WClosed; ELoopExit; ECloseRet 0 CAlready].
 Proof. exact demo_run. Qed.
+
+(* a closeKnown with a "Closed(c)? then ErrClosedConn" fast path in front of closeOnce (not in the code):
+   once the parent context is cancelled no close path runs the teardown any more *)
+Theorem C44_with_early_exit_teardown_never_runs :
+  exists script gs sched,
+    let r := run (program (mkCfg true true true) script gs) sched cinit in
+    complete (remaining r) = true /\ n_disc (events r) = 0 /\ c_closed (final_state r) = false.
+Proof. exact with_early_exit_teardown_never_runs. Qed.
+Print Assumptions C44_with_early_exit_teardown_never_runs.
